@@ -360,6 +360,10 @@ void Case::judge(const char * what, double err, double tol)
 {
   if (record) record->push_back({what, err, tol});
   if (verbose) {
+    if (sample_str.empty() && desc) {
+      sample_str = desc();
+      printf("  case: %s\n", sample_str.c_str());
+    }
     printf("  judge %-28s err=%.6g tol=%.6g %s\n", what, err, tol, (err <= tol) ? "ok" : "VIOLATED");
   }
   if (!L) return;
@@ -445,7 +449,6 @@ void explore(const std::string & label, uint64_t n, const Body & body)
     std::vector<Judged> rec;
     c.record = &rec;
     body(c);
-    printf("  case: %s\n", c.desc ? c.desc().c_str() : "");
     bool bad = false;
     for (auto & j : rec)
       if (!(j.err <= j.tol)) bad = true;
